@@ -129,11 +129,21 @@ func checkOn(name string, cv stdelliptic.Curve, c opCase) (h.Info, error) {
 		info := h.Info{Class: "add/" + rel, NT: rel != "P+Q"}
 		px, py := p.XY()
 		qx, qy := q.XY()
-		x, y := cv.Add(new(big.Int).Set(px), new(big.Int).Set(py), new(big.Int).Set(qx), new(big.Int).Set(qy))
+		a1, a2, a3, a4 := new(big.Int).Set(px), new(big.Int).Set(py), new(big.Int).Set(qx), new(big.Int).Set(qy)
+		x, y := cv.Add(a1, a2, a3, a4)
 		g, err := got(x, y)
 		want := K.Add(p, q)
 		if err != nil || !g.Equal(want) {
 			return info, fmt.Errorf("Add(%s, %s) [%s] = %s %v, group sum %s", fmtPt(p), fmtPt(q), rel, fmtPt(g), errStr(err), fmtPt(want))
+		}
+		if a1.Cmp(px) != 0 || a2.Cmp(py) != 0 || a3.Cmp(qx) != 0 || a4.Cmp(qy) != 0 {
+			return info, fmt.Errorf("Add(%s, %s) modified its arguments", fmtPt(p), fmtPt(q))
+		}
+		if rel == "P+P" || rel == "O+O" { // the same *big.Int pointers for both operands
+			x, y = cv.Add(a1, a2, a1, a2)
+			if g2, err := got(x, y); err != nil || !g2.Equal(want) {
+				return info, fmt.Errorf("Add(P, P) with identical argument pointers = %s %v, want %s", fmtPt(g2), errStr(err), fmtPt(want))
+			}
 		}
 		return info, nil
 	case "double":
@@ -158,11 +168,16 @@ func checkOn(name string, cv stdelliptic.Curve, c opCase) (h.Info, error) {
 			info.Class = "mult/O*" + sc
 		}
 		px, py := p.XY()
-		x, y := cv.ScalarMult(new(big.Int).Set(px), new(big.Int).Set(py), append([]byte{}, c.Scalar...))
+		b1, b2 := new(big.Int).Set(px), new(big.Int).Set(py)
+		kk := append(append(make([]byte, 0, len(c.Scalar)+8), c.Scalar...), 0xff, 0xff, 0xff, 0xff)[:len(c.Scalar)]
+		x, y := cv.ScalarMult(b1, b2, kk)
 		g, err := got(x, y)
 		want := K.Mul(p, new(big.Int).SetBytes(c.Scalar))
 		if err != nil || !g.Equal(want) {
 			return info, fmt.Errorf("ScalarMult(%s, %x) [%s] = %s %v, want %s", fmtPt(p), []byte(c.Scalar), sc, fmtPt(g), errStr(err), fmtPt(want))
+		}
+		if b1.Cmp(px) != 0 || b2.Cmp(py) != 0 || string(kk) != string(c.Scalar) {
+			return info, fmt.Errorf("ScalarMult(%s, %x) modified its arguments", fmtPt(p), []byte(c.Scalar))
 		}
 		return info, nil
 	case "basemult":
